@@ -40,13 +40,13 @@ var c12Static = []string{"ARGS_GET", "ARGS_GET:a", "ARGS_GET:b", "ARGS_GET:/^a/"
 var c12Dynamic = []string{"MATCHED_VAR", "MATCHED_VARS", "MATCHED_VAR_NAME", "MATCHED_VARS_NAMES", "RULE:id", "&ARGS_GET", "&ARGS", "TX:/^\\d$/", "MATCHED_VARS:/a/"}
 
 type c12Rule struct {
-	Multi   bool      `json:"multi_match,omitempty"`
-	Phase   int       `json:"phase,omitempty"` // 0 = the scenario's phase
-	ID      int       `json:"id"`
-	Targets string    `json:"targets"`
-	Trans   []string  `json:"t"`
-	Chain   *c12Rule  `json:"chain,omitempty"`
-	Dynamic bool      `json:"dynamic,omitempty"`
+	Multi   bool     `json:"multi_match,omitempty"`
+	Phase   int      `json:"phase,omitempty"` // 0 = the scenario's phase
+	ID      int      `json:"id"`
+	Targets string   `json:"targets"`
+	Trans   []string `json:"t"`
+	Chain   *c12Rule `json:"chain,omitempty"`
+	Dynamic bool     `json:"dynamic,omitempty"`
 }
 
 type c12Scenario struct {
